@@ -58,6 +58,10 @@ def cases(tier: str, base_seed: int):  # noqa: ANN201
     net_i = 0
     yield {"scenario": "net", "seed": base_seed + 8000, "knobs": {"lat_jit": 0.0, "loss": 0.0, "timer_jitter": 0.0}, "expect_reply": True,
            "ops": ["build", "wait", "wait", "wait", "anon", "wait", "anon", "wait", "anon", "wait"]}
+    # a packet held back for a 1-hop circuit, then the configured length changes while that circuit is still being built
+    yield {"scenario": "net", "seed": base_seed + 5015, "knobs": {"lat_jit": 0.05, "loss": 0.0, "timer_jitter": 0.001}, "ops": ["anon", "hops2"]}
+    yield {"scenario": "net", "seed": base_seed + 8001, "knobs": {"lat_jit": 0.0, "loss": 0.0, "timer_jitter": 0.0},
+           "ops": ["anon", "hops2", "wait", "anon", "wait", "wait"]}
     for stats in (True, False):
         for cls in (("DHTDiscoveryCommunity",) if tier == "quick" else ("DHTDiscoveryCommunity", "DiscoveryCommunity")):
             yield {"scenario": "service", "seed": base_seed + 7000 + int(stats), "knobs": {}, "stats": stats, "anon_overlay": cls}
